@@ -56,7 +56,7 @@ Record m1_case := mkCase {
   k_missing : list (nat * string * string);
   k_missing_enum : list (nat * list string);
   k_fill : fill_outcome;
-  k_validate : list (result unit validate_error);   (* validate_migration_plan of each history plan, then of the filled new plan *)
+  k_validate : list (result unit validate_error);   (* validate_migration_plan of each history plan, then of the filled new plan, then of the filled plan with corrupted fill values *)
   k_prefixed : list action;                          (* new plan .with_prefix("app_"), then the filled new plan .with_prefix("app_") *)
   k_validate_raw : result unit validate_error;       (* validate_migration_plan of the new plan BEFORE any fill value is supplied *)
 }.
@@ -75,6 +75,15 @@ Definition baseline_of (c : m1_case) : schema :=
 Definition fill_outcome_eq_dec (x y : fill_outcome) : {x = y} + {x <> y}.
 Proof. decide equality; apply list_eq_dec, action_eq_dec. Defined.
 
+(* every fill value of the plan replaced by a value that is no label of any generated enum: validate_migration_plan must check the
+   fill value of an enum column whether or not the column also has a default *)
+Definition corrupt_fill (a : action) : action :=
+  match a with
+  | AddColumn t col _ => AddColumn t col (Some "'zzz_not_a_label'")
+  | ModifyColumnNullable t col n _ => ModifyColumnNullable t col n (Some "'zzz_not_a_label'")
+  | _ => a
+  end.
+
 Definition check_case (c : m1_case) : list nat :=
   let np := new_plan_of c in
   let filled := match revision_fill np (baseline_of c) with Filled a => a | Refused => p_actions np end in
@@ -90,7 +99,8 @@ Definition check_case (c : m1_case) : list nat :=
   ++ (if dec_b fill_outcome_eq_dec (revision_fill np (baseline_of c)) (k_fill c) then [] else [7%nat])
   ++ (if list_eqb (res_eqb unit_eq_dec validate_error_eq_dec)
           (map validate_migration_plan (k_history c)
-           ++ [validate_migration_plan (mkPlan "" None None 0 filled)]) (k_validate c) then [] else [8%nat])
+           ++ [validate_migration_plan (mkPlan "" None None 0 filled);
+               validate_migration_plan (mkPlan "" None None 0 (map corrupt_fill filled))]) (k_validate c) then [] else [8%nat])
   ++ (if dec_b (list_eq_dec action_eq_dec) (map (action_with_prefix "app_") (p_actions np ++ filled)) (k_prefixed c)
       then [] else [9%nat])
   ++ (if res_eqb unit_eq_dec validate_error_eq_dec (validate_migration_plan np) (k_validate_raw c) then [] else [10%nat]).
